@@ -163,14 +163,26 @@ def gen_query(rnd, st, v=None):
         q['root_forbidden'] = _setrec([rnd.choice(cand)])
     if v >= 36 and len(sufs) >= 2 and rnd.random() < 0.4:
         q['same_subtree'] = [_setrec(rnd.sample(sufs, rnd.randint(2, len(sufs))))]
-    # a resourceless group that only positions the others in a subtree (1.36)
+    # a resourceless group that only positions the others in a subtree (1.36);
+    # it is selected by any one kind of filter, positive or negative
     if v >= 36 and len(sufs) >= 1 and rnd.random() < 0.25:
-        # (a resourceless group always carries a trait filter here: one with
-        # nothing but in_tree matches no provider in the implementation and the
-        # documentation does not say what it should mean)
-        g = {'suffix': '_ROOT', 'res': {}, 'required': [_setrec([rnd.choice(TRAITS)])],
-             'forbidden': {}, 'member_of': [], 'forbidden_aggs': {},
-             'in_tree': rnd.choice(provs) if provs and rnd.random() < 0.4 else ''}
+        g = {'suffix': '_ROOT', 'res': {}, 'required': [], 'forbidden': {}, 'member_of': [], 'forbidden_aggs': {},
+             'in_tree': ''}
+        how = rnd.choice(['required', 'required', 'forbidden', 'member_of', 'forbidden_aggs', 'in_tree'])
+        if how == 'required':
+            g['required'] = [_setrec([rnd.choice(TRAITS)])]
+            if provs and rnd.random() < 0.4:
+                g['in_tree'] = rnd.choice(provs)
+        elif how == 'forbidden':
+            g['forbidden'] = _setrec([rnd.choice(TRAITS)])
+        elif how == 'member_of':
+            g['member_of'] = [_setrec([rnd.choice(AGGS)])]
+        elif how == 'forbidden_aggs':
+            g['forbidden_aggs'] = _setrec([rnd.choice(AGGS)])
+        elif provs:
+            g['in_tree'] = rnd.choice(provs)
+        else:
+            g['required'] = [_setrec([rnd.choice(TRAITS)])]
         groups.append(g)
         q['same_subtree'] = q['same_subtree'] + [_setrec([g['suffix']] + sufs[:1])]
         if q['policy'] == '':
